@@ -121,7 +121,8 @@ class Rule:
                                 break
                             except (TypeError, ValueError):
                                 pass
-                    datum_path = DataPath(*datum_path)
+                    else:
+                        continue  # no cast was applied to this node: nothing to write back
                     set_datum(data_copy, datum_path, datum)
 
         return RuleTest(self, data_copy)
